@@ -93,6 +93,9 @@ func handleLeafList(gnmiLl *gnmi.TypedValue_LeaflistVal, typeOpt0 uint8) (*confi
 			if u.DecimalVal.Precision > maxDecimalPrecision {
 				return nil, fmt.Errorf("decimal precision %d is not supported (at most %d)", u.DecimalVal.Precision, maxDecimalPrecision)
 			}
+			if len(digitsList) > 0 && uint32(precision) != u.DecimalVal.Precision {
+				return nil, fmt.Errorf("the elements of a decimal leaf list must have one precision: %d and %d given", precision, u.DecimalVal.Precision)
+			}
 			digitsList = append(digitsList, u.DecimalVal.Digits)
 			precision = uint8(u.DecimalVal.Precision)
 		case *gnmi.TypedValue_FloatVal:
